@@ -160,9 +160,15 @@ pub fn check_e2e(tmp: &Path, case: &Case, obs: &mut Obs) -> CaseResult {
         obs.class("not-filesystem-safe(skipped)");
         return Ok(());
     }
-    for which in 0..3 {
+    for which in 0..5 {
         let root = scratch(tmp, "c19");
         let given = format!("{}/{}", root.display(), case.path);
+        if which >= 3 {
+            // truncate mode: the file that is emptied at open time is the one at the expanded location
+            let old = root.join(collapse(&want_rel));
+            std::fs::create_dir_all(old.parent().unwrap()).unwrap();
+            std::fs::write(&old, b"content of an earlier run\n").unwrap();
+        }
         let r = catch(|| -> Result<(), String> {
             match which {
                 0 => {
@@ -171,6 +177,13 @@ pub fn check_e2e(tmp: &Path, case: &Case, obs: &mut Obs) -> CaseResult {
                 1 => {
                     let policy = make_policy(&root.join("unused"), &TrigSpec::Size(1 << 40), &RollSpec::Delete).map_err(|e| e.to_string())?;
                     build_appender(Path::new(&given), true, &None, policy).map_err(|e| e.to_string())?;
+                }
+                3 => {
+                    FileAppender::builder().encoder(make_encoder(&None)).append(false).build(&given).map_err(|e| e.to_string())?;
+                }
+                4 => {
+                    let policy = make_policy(&root.join("unused"), &TrigSpec::Size(1 << 40), &RollSpec::Delete).map_err(|e| e.to_string())?;
+                    build_appender(Path::new(&given), false, &None, policy).map_err(|e| e.to_string())?;
                 }
                 _ => {
                     let roller = FixedWindowRoller::builder().build(&format!("{}.{{}}", given), 2).map_err(|e| e.to_string())?;
@@ -181,7 +194,7 @@ pub fn check_e2e(tmp: &Path, case: &Case, obs: &mut Obs) -> CaseResult {
             }
             Ok(())
         });
-        let what = ["FileAppender", "RollingFileAppender", "FixedWindowRoller"][which];
+        let what = ["FileAppender", "RollingFileAppender", "FixedWindowRoller", "FileAppender(truncate mode)", "RollingFileAppender(truncate mode)"][which];
         let res = match r {
             Err(p) => {
                 let _ = std::fs::remove_dir_all(&root);
@@ -211,6 +224,9 @@ pub fn check_e2e(tmp: &Path, case: &Case, obs: &mut Obs) -> CaseResult {
             if files.iter().any(|f| f.len() != want_file.len()) { "C19:rescan" } else { "C19:wrong-location" },
             "{} given {:?} created {:?}; the expanded location is {:?}", what, case.path, files, want_file
         );
+        if which >= 3 {
+            ensure!(s.files[&want_file].is_empty(), "C19:truncate-wrong-file", "{} given {:?}: the file at the expanded location {:?} still holds {} bytes of the earlier run after being opened in truncate mode", what, case.path, want_file, s.files[&want_file].len());
+        }
     }
     classify(case, obs);
     Ok(())
@@ -242,7 +258,7 @@ pub fn replay(part: &str, case: serde_json::Value) -> Option<CaseResult> {
 pub fn meta() -> EvidenceMeta {
     EvidenceMeta {
         level: "exploration",
-        rule: "cases = paths built as token sequences (literal ASCII/non-ASCII text, spaces, stray '$', '{', '}', '$ENV', '$ENV{', well-formed references to a pool of six variables (names incl. '.', '_' first, non-ASCII) each set or unset per case, repeated and adjacent references, malformed references: empty name, illegal first/inner character, nested, missing brace at end or before '/') with '$'-free adversarial values (empty, braces, 'ENV{LvAB}', 'LvAB}', sub-directories, non-ASCII); oracle: (bulk, guarded hook) expansion == the harness's single left-to-right pass in which substituted text is never rescanned, no panic; (end-to-end, public API) FileAppender::build, RollingFileAppender::build and FixedWindowRoller::roll on a filesystem-safe path under a fresh directory create exactly the file at the reference location and no other regular file. non-trivial = a substituted reference together with a construct left verbatim, or a value containing braces, or a multi-byte variable name".into(),
+        rule: "cases = paths built as token sequences (literal ASCII/non-ASCII text, spaces, stray '$', '{', '}', '$ENV', '$ENV{', well-formed references to a pool of six variables (names incl. '.', '_' first, non-ASCII) each set or unset per case, repeated and adjacent references, malformed references: empty name, illegal first/inner character, nested, missing brace at end or before '/') with '$'-free adversarial values (empty, braces, 'ENV{LvAB}', 'LvAB}', sub-directories, non-ASCII); oracle: (bulk, guarded hook) expansion == the harness's single left-to-right pass in which substituted text is never rescanned, no panic; (end-to-end, public API) FileAppender::build, RollingFileAppender::build and FixedWindowRoller::roll on a filesystem-safe path under a fresh directory create exactly the file at the reference location and no other regular file, and in truncate mode empty the pre-existing file at that location. non-trivial = a substituted reference together with a construct left verbatim, or a value containing braces, or a multi-byte variable name".into(),
         assumptions: vec!["values are '$'-free (the statement's domain)".into(), "environment mutated between cases: one driver thread per process".into()],
         mutants_caught: vec![],
     }
